@@ -385,6 +385,9 @@ def daily_rules(t):
             res.append(INVALID)
     if fbs is not None and _isnum(fbs) and not fbs > 0:
         res.append(INVALID)  # must be > 0 (written positively: NaN is not > 0)
+    ua = t.get("uncertainty_alpha")
+    if _isnum(ua) and ua in (0, 1):
+        res.append(UNSPEC)  # declared bounds include 0 and 1, the docstring says 0 < float < 1
     isp, alg = t["initial_step_percentage"], t["algorithm_choice"]
     if isp is not None:
         if _isnum(isp) and not (0 < isp <= 0.5):
